@@ -76,4 +76,23 @@ theorem autoclean_drain_removes_dir (c : Nat) (hc : 1 ≤ c) (conc ac : Bool) (c
         ∈ s.outs.reverse := by rw [houts]; exact hmem
     exact ⟨_, List.mem_reverse.mp this, rfl⟩
 
+/-- **Draining with AutoClear set leaves no run files** in the temporary directory: a
+    fault-free cycle pulled to io.EOF, either mode, any schedule (AutoClean not set — with
+    AutoClean the directory itself is gone, `autoclean_drain_removes_dir`). -/
+theorem autoclear_drain_no_runs (c : Nat) (hc : 1 ≤ c) (conc : Bool) (cy : Cycle)
+    (hdrain : cy.pushes.length < cy.pulls) {s : CState}
+    (hr : Reach (sys conc c true false cy.ops none) s) (hfin : finished s = true) :
+    s.onDisk = 0 := by
+  obtain ⟨hfiles, hcnt⟩ := finished_no_files (reach_CInv c true cy hc hr) (reach_NoFault hr).2.2 hfin hdrain
+  have := (reach_DiskInv hr).2.2.2
+  rw [hfiles, hcnt] at this
+  simpa using this
+
+/-- non-vacuity of the residue theorems: run files do exist on the way (one after the first
+    writer has created its temporary file) -/
+example : ((runSkipFrom (sys false 2 true false (Cycle.ops ⟨[⟨2, 0⟩, ⟨1, 0⟩, ⟨4, 0⟩, ⟨3, 0⟩, ⟨5, 0⟩], 6, false⟩) none)
+      (initState false 2 true false (Cycle.ops ⟨[⟨2, 0⟩, ⟨1, 0⟩, ⟨4, 0⟩, ⟨3, 0⟩, ⟨5, 0⟩], 6, false⟩) none)
+      [0, 0, 0, 0, 1]).1.onDisk = 1) := by
+  decide
+
 end Biogo.Properties.C13
